@@ -156,6 +156,7 @@ type Obligation struct {
 	Seconds float64
 	Model   string
 	Relaxed bool
+	NoRetry bool
 	Output  string
 }
 
